@@ -709,6 +709,12 @@ func c18Seq() {
 				lo = wpos - real
 			}
 			offs := map[uint64]bool{0: true, lo: true, lo + 1: true, wpos: true, wpos + 1: true}
+			if cfg.base == 0 {
+				// offsets at the top of the uint64 range (an "unknown offset" -1, wpos - size before the first wrap)
+				offs[^uint64(0)] = true
+				offs[wpos-real] = true
+				offs[wpos-real+1] = true
+			}
 			if lo > 0 {
 				offs[lo-1] = true
 			}
